@@ -11,8 +11,8 @@
    Model: Model/PingNick.v (handlePING, nickCollisionHandler, handleConnect/handleNICK as far
    as state.nick goes, GetNick, the two output routes); environment and reference machine:
    Spec/PingNickSpec.v.  What "successive collision" means operationally: the current code
-   keeps no counter; it builds on the nickname the numeric names (Params[1]) when that is a
-   nickname by IsValidNick, else on GetNick().  The theorems about runs of collisions
+   keeps no counter; it builds on the nickname the numeric names (Params[1]) unless that is
+   empty, contains SPACE or ',' or is a channel name, else on the client's own nickname.  The theorems about runs of collisions
    therefore speak about servers that name the nickname they refuse, as 433/436/437 do
    (sessions of Spec/PingNickSpec.v); C17_collision_any_numeric covers every other numeric. *)
 Require Import Bytes AMap Tags Event CodecSpec.
@@ -52,9 +52,10 @@ Theorem C17_pong_bypasses_limiter : forall params allow_flood wd since len,
 Proof. exact pong_bypasses_limiter. Qed.
 Print Assumptions C17_pong_bypasses_limiter.
 
-(* Default handler, runs of collisions.  For every configuration with tracking on and no
-   callback, every client state [st] (before 001: [], after 001: any current nickname),
-   every nickname [base] just asked for (Config.Nick at registration, or a later request),
+(* Default handler, runs of collisions.  For every configuration without a callback (tracking
+   on or off), every client state [st] (before 001: [], after 001: any current nickname),
+   every nickname [base] just asked for (Config.Nick at registration, or a later request;
+   nick_like: any IsValidNick nickname and also non-ASCII ones),
    and every sequence of messages in which 433/436/437 (any mix, any source, target and
    text) refuse the nickname last asked for and any other messages (PING, 001, NICK changes
    of ourselves or others, anything else) are interleaved:
@@ -62,8 +63,8 @@ Print Assumptions C17_pong_bypasses_limiter.
    - the k-th refusal is answered with base ++ k underscores;
    - base and all proposals are pairwise different: no refused nickname is proposed again. *)
 Theorem C17_collision_default : forall cfg items st base,
-  pc_tracking cfg = true -> pc_collide cfg = None ->
-  is_valid_nick base = true -> well_formed items -> no_user items ->
+  pc_collide cfg = None ->
+  nick_like base = true -> well_formed items -> no_user items ->
   exists outs,
     session cfg st base items = Ok outs /\
     List.map (filter is_nick_out) outs = expected_run base 0 items /\
@@ -83,8 +84,8 @@ Print Assumptions C17_collision_default_kth.
    answered with the refused nickname plus one '_' (expected_nicks restarts at the requested
    nickname). *)
 Theorem C17_collision_default_general : forall cfg items st req,
-  pc_tracking cfg = true -> pc_collide cfg = None ->
-  is_valid_nick req = true -> well_formed items ->
+  pc_collide cfg = None ->
+  nick_like req = true -> well_formed items ->
   exists outs, session cfg st req items = Ok outs /\
                List.map (filter is_nick_out) outs = expected_nicks req items.
 Proof. exact session_default. Qed.
@@ -94,38 +95,26 @@ Print Assumptions C17_collision_default_general.
    belongs): exactly one NICK; it is the named nickname, or else the current one, plus '_';
    it is never the nickname the numeric names. *)
 Theorem C17_collision_any_numeric : forall cfg st params,
-  pc_tracking cfg = true -> pc_collide cfg = None ->
+  pc_collide cfg = None ->
   exists b, nick_collision cfg st params = Ok [cmd_nick (b ++ [underscore])] /\
-            ((exists t r, params = t :: b :: r /\ is_valid_nick b = true) \/ b = current_nick cfg st) /\
-            (forall t p r, params = t :: p :: r -> is_valid_nick p = true -> b ++ [underscore] <> p).
+            ((exists t r, params = t :: b :: r /\ collision_named b = true) \/ b = current_nick cfg st) /\
+            (forall t p r, params = t :: p :: r -> collision_named p = true -> b ++ [underscore] <> p).
 Proof. exact collision_default_any. Qed.
 Print Assumptions C17_collision_any_numeric.
 
 (* Callback: exactly NICK (f current) when f current is not empty, nothing otherwise; in
    every state, for every 433/436/437 whatever its parameters. *)
 Theorem C17_collision_callback : forall cfg st e f,
-  pc_tracking cfg = true -> pc_collide cfg = Some f -> is_collision_cmd (e_cmd e) = true ->
+  pc_collide cfg = Some f -> is_collision_cmd (e_cmd e) = true ->
   pn_step cfg st e =
     Ok (st, match f (current_nick cfg st) with [] => [] | n => [cmd_nick n] end).
 Proof. exact step_collision_callback. Qed.
 Print Assumptions C17_collision_callback.
 
-(* ---- where the statement FAILS on the code as it is (findings, see notes/design/C17.md) *)
-
-(* Client.DisableTracking(): nickCollisionHandler calls GetNick, which panics. *)
-Theorem C17_collision_notracking_refuted : forall nick f st params,
-  nick_collision (mkPnCfg nick false f) st params = Panic.
-Proof. exact collision_notracking_panics. Qed.
-Print Assumptions C17_collision_notracking_refuted.
-
-(* A refused nickname that IsValidNick rejects (non-ASCII nicknames) is proposed again. *)
-Theorem C17_collision_invalid_nick_refuted :
-  exists cfg st req,
-    pc_tracking cfg = true /\ pc_collide cfg = None /\
-    session cfg st req [ICollide ex_shell; ICollide ex_shell] =
-      Ok [[cmd_nick [195; 188; 95]]; [cmd_nick [195; 188; 95]]].
-Proof. exact collision_invalid_repeats. Qed.
-Print Assumptions C17_collision_invalid_nick_refuted.
+(* every nickname by IsValidNick (Config.Nick is one) satisfies the hypothesis *)
+Theorem C17_valid_nick_is_nick_like : forall n, is_valid_nick n = true -> nick_like n = true.
+Proof. exact valid_nick_is_nick_like. Qed.
+Print Assumptions C17_valid_nick_is_nick_like.
 
 (* Not a defect but the reason for the "names the nickname it refuses" hypothesis: the handler
    keeps no counter, so numerics that carry no nickname (here "433 *", before 001) are all
